@@ -584,7 +584,7 @@ func countPending(s dutydb.VerifSnap, kind byte, hk any) int {
 	return n
 }
 
-const waitMax = 20 * time.Second
+const waitMax = 4 * time.Second // generous for a healthy implementation; a "not prompt" signature is confirmed by a second execution (check step 5b)
 
 // recordAnswer runs the answer monitors (uniqueness per key, only stored data).
 func (e *episode) recordAnswer(run *hx.Run, key, val string, extra map[string]map[string]bool) {
